@@ -461,7 +461,7 @@ def extra(c):
     # two controllers on one bus: safe when a transfer holds the bus, unsafe (expected counterexample) when exchanges interleave freely
     r1 = vlib.run_mc("EXTRA", "MC_Multi", "MC_Multi_transfer.cfg", "mc", workers=4, timeout=600, coverage=False)
     r2 = vlib.run_mc("EXTRA", "MC_Multi", "MC_Multi_free.cfg", "mc", workers=1, timeout=600, coverage=False)
-    cex = "Invariant Post is violated" in r2["tail"]
+    cex = bool(r2.get("violated")) and "Post" in r2["violated"]
     log("[M] MC_Multi: bus held per transfer: ok=%s (%d states); free interleaving: counterexample found=%s (expected: the protocol's data "
         "chunks carry no address)" % (r1["ok"], r1["distinct"], cex))
     if not r1["ok"] or not cex:
